@@ -168,6 +168,17 @@ def run_case(case):
     else:
         rec = lifecycle.run_case(case)
     viol = judges.judge_c04(rec)
+    if not case.get('wc') and not case.get('recreate') and rec['final'] and any(e['act'][0] == 'cancel_future' for e in case['plan']) and all(
+            isinstance(e['at'], int) for e in case['plan']) and len(case['plan']) <= 2:
+        # "cancelling the process's future has the same effect as kill()": the same plan with kill() in its place ends in the same state
+        twin_plan = [dict(e, act=['kill', 'Killed by future being cancelled'] if e['act'][0] == 'cancel_future' else list(e['act'])) for e in case['plan']]
+        twin = lifecycle.run_case(dict(case, plan=twin_plan))
+        if twin['final'] and not rec['inconclusive'] and not twin['inconclusive']:
+            a, b = rec['final'], twin['final']
+            if (a['state'], a['exception']) != (b['state'], b['exception']):
+                viol.append(judges.V('cancel-differs-from-kill', 'cancel-differs-from-kill:%s!=%s' % (a['state'], b['state']),
+                                     'cancelling the future ended %s (%s), kill() at the same point ended %s (%s); plan %s' % (
+                                         a['state'], a['exception'], b['state'], b['exception'], case['plan'])))
     obs = {'kill_live': 0, 'kill_phase': {}, 'quiescent_checks': 0, 'probe_kills': 0, 'final': {}, 'kill_returns': {}}
     first = None
     for a in rec['acts']:
